@@ -209,12 +209,18 @@ def drive(args):
     traces = []
     tid = 0
 
+    hangs = 0
+
     def add(desc, data, base):
-        nonlocal tid
+        nonlocal tid, hangs
+        if hangs >= 12:
+            return            # the verdict of this job is settled (12 recorded hangs); do not wait for thousands more
         if tid % 97 == 13:
             drv.hazard(drv.rng(seed, 'hazard', tid))
         with drv.Env('mut', lo, tid, every=4):         # every fourth call with the library's debug logging on
-            e, d = isoc.do_loads(data, codec, bc, hexb)
+            e, d = isoc.do_loads(data, codec, bc, hexb, secs=4.0 if hangs < 3 else 1.5)
+        if e['kind'] == 'hang':
+            hangs += 1
         traces.append({'tid': tid, 'hex': hexb, 'events': [e], '_desc': desc, '_m': base,
                        '_d': repr(d)[:300] if d is not None else None})
         tid += 1
